@@ -307,8 +307,21 @@ void begin(vf::Ctx &ctx) {
 }
 
 void end() {
-  for (int i = 1; i < g_nthr; ++i)
-    if (g_thr[i].st != FINISHED) die("harness-error", vf::sfmt("thread T%d still alive at the end of the session", i));
+  // A thread the code under test detached keeps running after its owner is gone: let it run to completion
+  // under the scheduler (the harness' recorders stay alive until after end(), so what it still does is seen by
+  // the oracle; if it never finishes, the usual deadlock / horizon verdicts apply).
+  for (int i = 1; i < g_nthr; ++i) {
+    if (g_thr[i].st == FINISHED) continue;
+    if (t_self != 0) die("harness-error", vf::sfmt("thread T%d still alive at the end of the session", i));
+    note("drain-detached-thread", (uint64_t)i, 0);
+    Thr &s = me();
+    while (g_thr[i].st != FINISHED) {
+      s.st = B_JOIN; s.wait_obj = i;
+      schedule(false);
+    }
+    s.wait_obj = -1;
+    pthread_join(g_thr[i].pt, nullptr);
+  }
   g_active = false;
 }
 
@@ -518,7 +531,8 @@ int thread_spawn(Task *task) {
   if (!active()) { fprintf(stderr, "vf: std::thread created outside a scheduling session\n"); _exit(2); }
   count_point(OP_SPAWN, -1);
   schedule(true);
-  if (g_nthr >= MAXTHR) { fprintf(stderr, "vf: too many threads\n"); _exit(2); }
+  if (g_nthr >= MAXTHR)  // a horizon on thread creation, like the one on scheduling points: no configuration of an unchanged tree comes near it
+    die("nontermination", vf::sfmt("more than %d threads were created in one execution (threads accumulate without bound)", MAXTHR - 1));
   int id = g_nthr++;
   Thr &t = g_thr[id];
   t.st = RUNNABLE;
